@@ -57,6 +57,8 @@ func (o objSpec) setArgs(key string) []string {
 
 // fieldOf is the reference reading of a field: normalised text, missing = 0.
 func (o objSpec) fieldOf(name string) model.FVal {
+	// names are stored and looked up without the white space around them
+	name = strings.TrimSpace(name)
 	// z is the reserved name of the third coordinate of a point (or of a
 	// Feature around a point); every other object reads 0
 	if name == "z" {
@@ -67,9 +69,12 @@ func (o objSpec) fieldOf(name string) model.FVal {
 		}
 		return model.ZeroFVal
 	}
-	// a dotted name is first read as a path into the JSON document of the
-	// field named by the part before the first dot; when that field is not a
-	// JSON document or has no such member, the name is an ordinary field name
+	// a stored field of exactly this name wins (a zero value is not stored)
+	if v, ok := o.plainField(name); ok && !v.IsZero() {
+		return v
+	}
+	// otherwise a dotted name is a path into the JSON document of the field
+	// named by the part before the first dot
 	if dot := strings.IndexByte(name, '.'); dot != -1 {
 		if doc, ok := o.plainField(name[:dot]); ok && doc.Kind == model.KJSON {
 			if v, ok := jsonMember(doc.Data, name[dot+1:]); ok {
@@ -77,14 +82,13 @@ func (o objSpec) fieldOf(name string) model.FVal {
 			}
 		}
 	}
-	v, _ := o.plainField(name)
-	return v
+	return model.ZeroFVal
 }
 
 func (o objSpec) plainField(name string) (model.FVal, bool) {
 	v, ok := model.ZeroFVal, false
 	for _, f := range o.Fields {
-		if string(f[0]) == name {
+		if strings.TrimSpace(string(f[0])) == name {
 			v, ok = model.NormField(string(f[1])), true // the last FIELD clause of a SET wins
 		}
 	}
@@ -121,7 +125,7 @@ func jsonMember(doc, path string) (model.FVal, bool) {
 // field names around the dotted-name lookup: "a" (often a JSON document),
 // names that sort right after it and share the prefix, and a JSON-valued field
 // whose own name has a dot.
-var dottedNames = []string{"a", "a-", "a.b", "a.x", "a/"}
+var dottedNames = []string{"a", "a-", "a.b", "a.x", "a/", "j", "j.b"}
 
 // JSON documents for those fields: plain alphanumeric keys, no duplicate keys,
 // no string members spelled like numbers' special values.
@@ -130,15 +134,25 @@ var dottedDocs = []string{
 	`{"x":null,"y":false}`, `{"x":{"k":1}}`, `{"y":1}`, `[1,2]`, `{"b":{"x":7,"y":"q"}}`,
 }
 
+// documents for the field j: most have a member b, which a plain field named
+// j.b (holding another value) must shadow
+var shadowDocs = []string{`{"b":1}`, `{"b":1}`, `{"b":"Blue","c":2}`, `{"b":{"x":7}}`, `{"c":2}`, `{"b":7}`}
+
 // names a filter may use when the dataset carries the dotted fields
-var dottedFilterNames = []string{"a.x", "a.x", "a.b", "a.y", "a.b.x", "a.b.y", "a.z", "a.z.1", "a.0", "a-.x", "a-", "a", "a/", "a.q", "a.x.k"}
+var dottedFilterNames = []string{"a.x", "a.x", "a.b", "a.y", "a.b.x", "a.b.y", "a.z", "a.z.1", "a.0", "a-.x", "a-", "a", "a/", "a.q", "a.x.k", "j.b", "j.b", "j.b", "j.b.x", "j.c", "j"}
 
 var dottedComparands = []string{"5", "7", "1", "1.0", "2.5", "Blue", "blue", "q", "s", "true", "false", "null", `{"x":7,"y":"q"}`, `[1,2.5,"s"]`, `{"k":1}`, "0"}
+
+// dottedName: one of the names around the dotted lookup (a..., j...)
+func dottedName(name string) bool {
+	name = strings.TrimSpace(name)
+	return strings.HasPrefix(name, "a") || strings.HasPrefix(name, "j")
+}
 
 func hasDottedFields(objs []objSpec) bool {
 	for _, o := range objs {
 		for _, f := range o.Fields {
-			if strings.HasPrefix(string(f[0]), "a") {
+			if dottedName(string(f[0])) {
 				return true
 			}
 		}
@@ -161,6 +175,11 @@ func drawFieldValue(t *rapid.T) string {
 // third coordinates, also the pool of comparands for filters on z
 var zValues = []string{"0", "1", "50", "51", "100", "-5", "2.5", "49.5", "1000", "50"}
 
+// non-finite values for the numeric fields of the expression class and the
+// literals an expression can compare with (JavaScript spellings)
+var nonFiniteValues = []string{"+Inf", "-Inf", "inf", "-Infinity", "NaN", "nan"}
+var nonFiniteLiterals = []string{"Infinity", "-Infinity", "NaN"}
+
 var numericValues = []string{"0", "1", "2", "3", "-1", "-2", "1.5", "2.5", "-0.5", "1e1", "10", "100", "-3"}
 
 func drawObjects(t *rapid.T, min, max int, spread int) []objSpec {
@@ -181,12 +200,23 @@ func drawObjects(t *rapid.T, min, max int, spread int) []objSpec {
 		}
 		for _, name := range []string{"f", "g"} {
 			if rapid.IntRange(0, 3).Draw(t, "has"+name) != 0 {
+				if rapid.IntRange(0, 7).Draw(t, "padstored") == 0 {
+					name = padName(t, name) // writers store the name without the padding
+				}
 				o.Fields = append(o.Fields, [2]bstr{bstr(name), bstr(drawFieldValue(t))})
 			}
 		}
 		if dotted {
 			for _, name := range dottedNames {
 				if rapid.IntRange(0, 1).Draw(t, "hasdotted") == 0 {
+					continue
+				}
+				if name == "j" || name == "j.b" {
+					v := rapid.SampledFrom(shadowDocs).Draw(t, "jdoc")
+					if name == "j.b" {
+						v = rapid.SampledFrom([]string{"7", "7", "Blue", "1", "0", `{"x":9}`}).Draw(t, "jb")
+					}
+					o.Fields = append(o.Fields, [2]bstr{bstr(name), bstr(v)})
 					continue
 				}
 				var v string
@@ -207,7 +237,11 @@ func drawObjects(t *rapid.T, min, max int, spread int) []objSpec {
 		}
 		for _, name := range []string{"n1", "n2"} {
 			if rapid.IntRange(0, 2).Draw(t, "has"+name) != 0 {
-				o.Fields = append(o.Fields, [2]bstr{bstr(name), bstr(rapid.SampledFrom(numericValues).Draw(t, "numv"))})
+				v := rapid.SampledFrom(numericValues).Draw(t, "numv")
+				if rapid.IntRange(0, 5).Draw(t, "nonfinite") == 0 {
+					v = rapid.SampledFrom(nonFiniteValues).Draw(t, "nfv")
+				}
+				o.Fields = append(o.Fields, [2]bstr{bstr(name), bstr(v)})
 			}
 		}
 		objs[i] = o
@@ -571,7 +605,7 @@ func drawComparand(t *rapid.T, objs []objSpec, field string) string {
 	if field == "z" && rapid.IntRange(0, 9).Draw(t, "zcmp") < 8 {
 		return rapid.SampledFrom(zValues).Draw(t, "zcmpv")
 	}
-	if strings.HasPrefix(field, "a") && rapid.IntRange(0, 9).Draw(t, "dcmp") < 6 {
+	if dottedName(field) && rapid.IntRange(0, 9).Draw(t, "dcmp") < 6 {
 		return rapid.SampledFrom(dottedComparands).Draw(t, "dcmpv")
 	}
 	if len(objs) > 0 && rapid.IntRange(0, 9).Draw(t, "cmpfrom") < 6 {
@@ -583,6 +617,19 @@ func drawComparand(t *rapid.T, objs []objSpec, field string) string {
 		}
 	}
 	return drawFieldValue(t)
+}
+
+// padName surrounds a field name with blanks / tabs: names are stored and
+// looked up trimmed.
+func padName(t *rapid.T, name string) string {
+	pads := []string{" ", "\t", "  ", " \t"}
+	switch rapid.IntRange(0, 2).Draw(t, "padside") {
+	case 0:
+		return rapid.SampledFrom(pads).Draw(t, "padl") + name
+	case 1:
+		return name + rapid.SampledFrom(pads).Draw(t, "padr")
+	}
+	return rapid.SampledFrom(pads).Draw(t, "padl") + name + rapid.SampledFrom(pads).Draw(t, "padr")
 }
 
 func drawFilter(t *rapid.T, c *ev.Collector, objs []objSpec) filtSpec {
@@ -597,6 +644,9 @@ func drawFilter(t *rapid.T, c *ev.Collector, objs []objSpec) filtSpec {
 	field := rapid.SampledFrom([]string{"f", "f", "g", "n1", "missing", "z"}).Draw(t, "ffield")
 	if hasDottedFields(objs) && rapid.IntRange(0, 3).Draw(t, "dottedfilter") != 0 {
 		field = rapid.SampledFrom(dottedFilterNames).Draw(t, "dfield")
+	}
+	if rapid.IntRange(0, 5).Draw(t, "padname") == 0 {
+		field = padName(t, field)
 	}
 	switch rapid.IntRange(0, 9).Draw(t, "fkind") {
 	case 0, 1, 2: // range
@@ -665,7 +715,9 @@ func drawFilter(t *rapid.T, c *ev.Collector, objs []objSpec) filtSpec {
 				Op:    rapid.SampledFrom(ops).Draw(t, "top"),
 				Num:   rapid.SampledFrom(numericValues).Draw(t, "tnum"),
 			})
-			if f.Terms[i].Field == "z" {
+			if rapid.IntRange(0, 7).Draw(t, "tnonfinite") == 0 {
+				f.Terms[i].Num = rapid.SampledFrom(nonFiniteLiterals).Draw(t, "tnf")
+			} else if f.Terms[i].Field == "z" {
 				f.Terms[i].Num = rapid.SampledFrom(zValues).Draw(t, "tznum")
 			}
 			if i > 0 {
@@ -757,14 +809,23 @@ func runWhereCase(t failer, c *ev.Collector, d whereCase) (labels []string, nont
 		if f.Kind == "op" {
 			labels = append(labels, "op:"+f.Op)
 		}
-		if strings.HasPrefix(f.Field, "a") {
-			labels = append(labels, "filter-on-dotted-or-prefix-sharing-name:"+f.Field)
+		if dottedName(f.Field) && f.Kind != "expr" {
+			labels = append(labels, "filter-on-dotted-or-prefix-sharing-name:"+strings.TrimSpace(f.Field))
+			if f.shadowed(d.Objs) {
+				labels = append(labels, "exact-name-field-shadows-json-member")
+			}
+		}
+		if f.Kind != "expr" && strings.TrimSpace(f.Field) != f.Field {
+			labels = append(labels, "filter-name-padded:"+f.Kind)
 		}
 		if f.usesNonFinite(d.Objs) {
 			labels = append(labels, "nan-or-inf-compared:"+f.Kind)
 		}
-		if f.Field == "z" {
+		if strings.TrimSpace(f.Field) == "z" {
 			labels = append(labels, "filter-on-z:"+f.Kind)
+		}
+		if f.Kind == "expr" && f.exprNonFinite(d.Objs) {
+			labels = append(labels, "expression-meets-nan-or-inf")
 		}
 		for _, tm := range f.Terms {
 			if tm.Field == "z" {
@@ -772,7 +833,7 @@ func runWhereCase(t failer, c *ev.Collector, d whereCase) (labels []string, nont
 				break
 			}
 		}
-		if f.Field == "missing" {
+		if strings.TrimSpace(f.Field) == "missing" {
 			labels = append(labels, "filter-on-missing-field")
 		}
 		if f.crossKind(d.Objs) {
@@ -810,7 +871,7 @@ func TestC12_Where(t *testing.T) {
 	c := ev.New("C12", "where", "exploration")
 	t.Cleanup(c.Flush)
 	c.Rule("server level: 3-25 objects (strings, points, bounds, polygons, and objects with a third coordinate: POINT lat lon z, Feature around a 3-coordinate Point, 3-coordinate Point geometry, MultiPoint with z (reads 0); filters on the reserved name z in range, operator, WHEREIN and quoted-expression form read that coordinate, 0 for every other object) with fields f,g holding values of every kind (numbers incl. NaN and +-Inf in several spellings, also as comparands of every filter form (as lower bound in the exclusive (nan form), strings of both cases, true/false/null, JSON containers, quoted strings, padded text) or missing, n1,n2 numeric or missing; in 1 of 4 datasets also fields named a, a-, a.b, a.x, a/ (JSON documents and scalars) with filters on a.x, a.b, a.b.x, a.z.1, a-.x, ... read as member of the JSON field a, else the field literally named so; base query SCAN/SEARCH/WITHIN/INTERSECTS (whole world)/NEARBY; 1-3 filters (1 in 8 cases: a clause count from the same threshold set up to 33, extra clauses mostly repeating an earlier one in another spelling) out of WHERE f min max (numbers, +-inf, '(' exclusive bounds, JSON-quoted strings, JSON containers), WHERE f op v for the six operators, WHEREIN f n v.. (n = 0..3, or n drawn from {1-5,7-9,15-17,31-33,63-65,100,129}: stored values under an equal-but-different spelling - 1/1.0/1e0/1e+00, 10/1e1, 0/-0/0.0, ASCII case variants, JSON-quoted strings, padding, re-spaced JSON - stored values as they are, fresh values of every kind, duplicates), WHERE \"n1 op num (&&,||) ..\" (numeric expression class, evaluated by a small evaluator with && binding tighter). Oracle: filtered IDS == [id in the unfiltered reply : every filter holds under model.NormField / Less with missing = 0]; DESC == reverse; COUNT == len(IDS); LIMIT prefix/min; CURSOR c COUNT == len(CURSOR c IDS). Comparands are drawn mostly from the stored values so equality and boundary cases occur. Non-trivial: the filters keep some but not all items, some comparison is between two different kinds, and the collection mixes strings and geometries; distinct by (filters, field values).")
-	c.Assume("expression-mode WHERE follows JavaScript semantics for numeric comparisons and && / || precedence (tidwall/expr); only that numeric class is generated")
+	c.Assume("expression-mode WHERE follows JavaScript semantics for numeric comparisons (every comparison with NaN is false except !=; Infinity / -Infinity / NaN literals) and && / || precedence (tidwall/expr); only that numeric class is generated")
 	c.Note("NaN has a fixed place in the reference order (before every other number, equal only to NaN); WHERE on properties.* is not generated")
 	ev.Rapid("where", ev.Pick(5000, 50000))
 	rapid.Check(t, func(rt *rapid.T) {
@@ -1125,6 +1186,44 @@ func (f filtSpec) usesNonFinite(objs []objSpec) bool {
 	for _, o := range objs {
 		if nf(o.fieldOf(f.Field)) {
 			return true
+		}
+	}
+	return false
+}
+
+// shadowed: some object holds both a field of exactly the filter's (dotted)
+// name and a JSON field with that member, with different values.
+func (f filtSpec) shadowed(objs []objSpec) bool {
+	name := strings.TrimSpace(f.Field)
+	dot := strings.IndexByte(name, '.')
+	if dot == -1 {
+		return false
+	}
+	for _, o := range objs {
+		exact, ok := o.plainField(name)
+		if !ok || exact.IsZero() {
+			continue
+		}
+		if doc, ok := o.plainField(name[:dot]); ok && doc.Kind == model.KJSON {
+			if m, ok := jsonMember(doc.Data, name[dot+1:]); ok && !(m.Kind == exact.Kind && m.Same(exact)) {
+				return true
+			}
+		}
+	}
+	return false
+}
+
+// exprNonFinite: an expression term meets a NaN/Inf field value or literal.
+func (f filtSpec) exprNonFinite(objs []objSpec) bool {
+	nf := func(x float64) bool { return x != x || x > 1e308 || x < -1e308 }
+	for _, tm := range f.Terms {
+		if n, err := strconv.ParseFloat(tm.Num, 64); err == nil && nf(n) {
+			return true
+		}
+		for _, o := range objs {
+			if nf(o.fieldOf(tm.Field).Num) {
+				return true
+			}
 		}
 	}
 	return false
